@@ -5,11 +5,17 @@
 //	(a) spelling variants (case of property name / keyword / unit / function name, comments,
 //	    white space, trailing semicolon, !important spelling) of every accepted
 //	    (property, value <= 3 tokens) pair: the validation.Declaration lists must be equal;
+//	    every property is also tried as a comma separated list of two and three of its own
+//	    accepted values: a list means its items in the order written (compared by index with
+//	    what each item means alone), and a comma where the grammar has none is an invalid value;
 //	(b) shorthands against small reference expanders written from the property definitions,
-//	    plus generic clauses for every shorthand;
+//	    plus generic clauses for every shorthand; the `background` shorthand with two and three
+//	    layers whose components all differ per layer, compared layer by layer with the long-hands;
 //	(c) var(): computed style of a probe element with the value routed through custom
 //	    properties (direct, fallback, undefined, ill-typed, graphs of custom properties
-//	    including cycles) against the computed style of the direct spelling;
+//	    including cycles) against the computed style of the direct spelling; a layered
+//	    `background` with var() as the whole value / a layer / a component of a layer against the
+//	    computed style its long-hand spelling gives;
 //	(d) independence: a block with one invalid declaration inserted at any position yields the
 //	    declarations of the block without it.
 package c08
@@ -89,7 +95,10 @@ func (c *check) Init(tier string, seed int64) engine.Space {
 		Units: c.nA + c.nB + c.nC + c.nD, Chunk: 1, Level: "model_checking",
 		Rule: "part a: one unit per property; every sequence of <= 3 tokens (thorough: 4 for small alphabets) over the per-property alphabet is validated, " +
 			"every accepted one is a non-trivial case and is compared with all its spelling variants (each variant = one transition); " +
-			"part b: one case per (shorthand, value) produced by the reference generators, compared long-hand by long-hand with the reference expansion; " +
+			"then every pair and triple of <= 8 (thorough: 12) accepted comma-free values of the property, one per lexical shape first, written as a comma separated list: " +
+			"element k of each list-valued long-hand must be what item k yields alone (properties without a comma in their grammar: the pair must be rejected); " +
+			"part b: one case per (shorthand, value) produced by the reference generators, compared long-hand by long-hand with the reference expansion, " +
+			"and one case per layered `background` value (index-addressable product, see bounds), compared layer by layer; " +
 			"part c: one case per (property, value, var() form) or (custom-property graph, start, property), observed on the computed style of a probe element; " +
 			"part d: one case per (block of <= 3 valid declarations, invalid declaration, position). A case is non-trivial when the oracle was actually compared " +
 			"(the value was accepted / the document was styled).",
@@ -108,6 +117,8 @@ func (c *check) Init(tier string, seed int64) engine.Space {
 			"shorthand_ref_cases":      len(c.bCases),
 			"custom_property_graphs":   map[bool]string{false: "all 512 edge sets on 3 names", true: "all 512 edge sets on 3 names + the 4-name edge sets (of 65536) in which every name is reachable from the referenced one"}[c.thorough],
 			"shared_declaration_cases": fmt.Sprintf("%d rule templates x %d arrangements of 2-4 matched elements (siblings in every order, parent/child/grandchild with own, inherited and partly inherited custom properties)", len(shTemplates), len(shConfigs(shTemplates[0]))),
+			"layered_background_var":   fmt.Sprintf("%d layered values (2 and 3 layers x 3 rotations x {every component in every layer, mixed}) with var() as the whole value, each layer, each component of each layer", len(c.lyVars)),
+			"list_items_per_property":  map[bool]int{false: 8, true: 12}[c.thorough],
 			"independence_menu":        len(dMenu),
 			"invalid_declarations":     len(dInvalid),
 		},
